@@ -9,8 +9,8 @@ import base64, bz2, concurrent.futures, gzip, hashlib, json, lzma, os, random, s
 from vlib import e2e, formats
 from vlib import c02_formats as F, c02_mut as M, c02_pgp as P
 
-# Keys of genuine-looking defects of relic found by this check. They are printed as SUSPECTED-DEFECT (not VIOLATION) until the
-# maintainer of /verif decides between a fix and known_findings.json. Exact keys only; anything else is a VIOLATION.
+# Keys of genuine defects of relic found by this check; each is listed in /verif/known_findings.json (exact keys only, printed
+# as KNOWN-FINDING while it reproduces; anything not listed there is a VIOLATION).  This table only documents their causes.
 SUSPECTED = [
     # RFC 5652 §5.3/§11.1: the content-type signed attribute must equal eContentType; relic never compares them, so the
     # eContentType of a detached/opaque CMS can be rewritten (Authenticode formats compare the OID with SpcIndirectData and are safe)
@@ -329,14 +329,10 @@ def run(ctx, replay=None):
         ex = e["examples"][0]
         detail = "%d accepted mutation(s) of protected content, e.g. %s of %s signed with %s: %s" % (
             e["count"], describe_mut(ex["mutation"]), ex["fixture"], ex["key"], ex["expected"][:300])
-        if key in SUSPECTED:
-            suspected.append({"key": key, "count": e["count"], "example": {k: ex[k] for k in ("fixture", "format", "key", "mutation", "view_diff", "sign_cmds", "verify_cmd")}})
-            print("SUSPECTED-DEFECT: property=C02 %s — %s" % (key, detail[:400]))
-            os.makedirs(os.path.join(os.path.dirname(ctx.scratch), "c02-suspected"), exist_ok=True)
-            json.dump(e["examples"], open(os.path.join(os.path.dirname(ctx.scratch), "c02-suspected", key.replace(":", "_").replace("/", "_") + ".json"), "w"), indent=1, default=str)
-        else:
-            for ex in e["examples"][:1]:
-                ctx.violation(key, detail, dict(ex, accepted_count=e["count"]), True)
+        rec = {"key": key, "count": e["count"], "example": {k: ex[k] for k in ("fixture", "format", "key", "mutation", "view_diff", "sign_cmds", "verify_cmd")}}
+        # a key listed in known_findings.json is printed as KNOWN-FINDING by ctx.violation; anything else is a VIOLATION
+        if not ctx.violation(key, detail, dict(ex, accepted_count=e["count"]), True):
+            suspected.append(rec)
     cov = dict(frag)
     per = {}
     for f, d in sorted(R.per_fmt.items()):
@@ -350,7 +346,7 @@ def run(ctx, replay=None):
                          "line/node level edits (PowerShell, clearsign, XML, ar), signature grafts from a signed variant of the same fixture, cross-key (artefact of key B under trust root A), "
                          "corrupt .gz/.xz wrappers through `relic verify`; oracle: accept => protected view (independent readers) equals a genuinely signed artefact's view")
                         % (", p384+sha384, rsa3072+sha512" if thorough else "", "40000" if thorough else "6500"),
-                "samples": R.samples[:12], "per_format": per, "artefacts": R.art_summary, "suspected_defects": suspected,
+                "samples": R.samples[:12], "per_format": per, "artefacts": R.art_summary, "known_findings_detail": suspected,
                 "probe_crashes": R.crashes, "wall_e2e_s": round(time.time() - t0, 1),
                 "not_covered": ["fatfile.app (relic cannot sign fat Mach-O; the fixture is ad-hoc signed)", "timestamp counter-signatures (C10)"]})
     return ctx.finish("proof", cov, ["the independent readers in vlib/c02_*.py state the protected byte set of each format (hand-written from the specifications)",
